@@ -8971,39 +8971,54 @@ func ruleSearchLoopsIterate(c *core.Ctx) {
 		return
 	}
 	info := p.TypesInfo
-	// how a statement list can end: may fall through to the next iteration / always leaves
-	var fallsThrough func(list []ast.Stmt) bool
-	fallsThrough = func(list []ast.Stmt) bool {
+	// how a statement list can end: "next" (falls off the end or `continue`: the loop goes on), "leave" (return, break,
+	// panic); inSwitch: a `break` leaves the switch only and the statements after the switch run
+	var outcomes func(list []ast.Stmt, inSwitch bool) (next, leave bool)
+	outcomes = func(list []ast.Stmt, inSwitch bool) (bool, bool) {
+		next, leave := false, false
 		for _, s := range list {
 			switch x := s.(type) {
 			case *ast.ReturnStmt:
-				return false
+				return next, true
 			case *ast.BranchStmt:
-				if x.Tok == token.BREAK || x.Tok == token.GOTO {
-					return false
-				}
-				if x.Tok == token.CONTINUE {
-					return true
+				switch x.Tok {
+				case token.CONTINUE:
+					return true, leave
+				case token.BREAK:
+					if inSwitch {
+						return true, leave // leaves the switch; conservatively: the loop may go on
+					}
+					return next, true
+				case token.GOTO:
+					return true, true
 				}
 			case *ast.ExprStmt:
 				if ce, ok := x.X.(*ast.CallExpr); ok && core.NoReturn(info, ce) {
-					return false
+					return next, true
 				}
 			case *ast.BlockStmt:
-				if !fallsThrough(x.List) {
-					return false
+				n2, l2 := outcomes(x.List, inSwitch)
+				leave = leave || l2
+				if !n2 {
+					return next, leave
 				}
+				// falls through the block's end or continues: go on only if it can fall off the end — approximated by n2
 			case *ast.IfStmt:
-				thenFalls := fallsThrough(x.Body.List)
-				elseFalls := true
+				tn, tl := outcomes(x.Body.List, inSwitch)
+				en, el := true, false
 				switch e := x.Else.(type) {
 				case *ast.BlockStmt:
-					elseFalls = fallsThrough(e.List)
+					en, el = outcomes(e.List, inSwitch)
 				case *ast.IfStmt:
-					elseFalls = fallsThrough([]ast.Stmt{e})
+					en, el = outcomes([]ast.Stmt{e}, inSwitch)
 				}
-				if !thenFalls && !elseFalls {
-					return false
+				leave = leave || tl || el
+				// a `continue` inside a branch already reaches the next iteration
+				if containsContinue(x) {
+					next = true
+				}
+				if !tn && !en {
+					return next, leave
 				}
 			case *ast.SwitchStmt, *ast.TypeSwitchStmt:
 				var body *ast.BlockStmt
@@ -9012,34 +9027,39 @@ func ruleSearchLoopsIterate(c *core.Ctx) {
 				} else {
 					body = x.(*ast.TypeSwitchStmt).Body
 				}
-				hasDefault, anyFalls := false, false
+				hasDefault, anyNext := false, false
 				for _, cl := range body.List {
 					cc := cl.(*ast.CaseClause)
 					if cc.List == nil {
 						hasDefault = true
 					}
-					// a `break` inside a switch clause leaves the switch, not the loop
-					falls := true
-					for _, st := range cc.Body {
-						if r, ok := st.(*ast.ReturnStmt); ok && r != nil {
-							falls = false
-						}
-						if es, ok := st.(*ast.ExprStmt); ok {
-							if ce, ok := es.X.(*ast.CallExpr); ok && core.NoReturn(info, ce) {
-								falls = false
-							}
-						}
-					}
-					if falls {
-						anyFalls = true
+					cn, cl2 := outcomes(cc.Body, true)
+					leave = leave || cl2
+					if cn {
+						anyNext = true
 					}
 				}
-				if hasDefault && !anyFalls {
-					return false
+				if containsContinue(x) {
+					next = true
 				}
+				if hasDefault && !anyNext {
+					return next, leave
+				}
+			case *ast.ForStmt, *ast.RangeStmt:
+				// an inner loop: its own breaks/continues stay inside; a return inside leaves
+				ast.Inspect(x, func(m ast.Node) bool {
+					if _, ok := m.(*ast.ReturnStmt); ok {
+						leave = true
+					}
+					return true
+				})
 			}
 		}
-		return true
+		return true, leave
+	}
+	fallsThrough := func(list []ast.Stmt) bool {
+		next, _ := outcomes(list, false)
+		return next
 	}
 	for _, d := range c.AllDecls() {
 		if c.DeclPkg(d) != p || d.Body == nil || c.IsTestFile(d.Pos()) {
@@ -9125,7 +9145,7 @@ func ruleExpressionScalarTags(c *core.Ctx) {
 func ruleRequiredPerStepAndExitPropagates(c *core.Ctx) {
 	const ruleN, ruleS = "NR1", "S4"
 	c.Rule(ruleN, "cpp/ndjson: the `required` argument emitted for ReadProtocolValue is `!step.IsStream()` of the step being printed", 1)
-	c.Rule(ruleS, "python/protocols: no emission inside an emitted `__exit__` returns a true value", 2)
+	c.Rule(ruleS, "python/protocols: no emission inside an emitted `__exit__` returns a true value", 1)
 	n := 0
 	for _, fn := range []string{"writeProtocolMethods", "WriteNdJson"} {
 		rows, d := flatRows(c, "internal/cpp/ndjson", fn)
@@ -9184,6 +9204,38 @@ func ruleRequiredPerStepAndExitPropagates(c *core.Ctx) {
 			}
 			if cur == "__exit__" && regexp.MustCompile(`^\s*return\s+(True|1|not\s+False)\b`).MatchString(line) {
 				c.Bad(ruleS, fmt.Sprintf("__exit__#%d/return True", m), r.Pos, "the emitted __exit__ returns True: the exception that ended the `with` block (EOFError on a truncated stream) is suppressed and the block completes normally")
+			}
+		}
+	}
+	if m == 0 {
+		// the methods are printed through helpers / line tables: fall back to the functions whose string constants
+		// mention `def __exit__` — none of their constants may return a true value
+		pp := c.Pkg("internal/python/protocols")
+		for _, fd := range c.AllDecls() {
+			if c.DeclPkg(fd) != pp || fd.Body == nil {
+				continue
+			}
+			mentions, returnsTrue := false, token.NoPos
+			ast.Inspect(fd.Body, func(nn ast.Node) bool {
+				if bl, ok := nn.(*ast.BasicLit); ok && bl.Kind == token.STRING {
+					if tv, ok := pp.TypesInfo.Types[bl]; ok && tv.Value != nil && tv.Value.Kind() == constant.String {
+						t := constant.StringVal(tv.Value)
+						if strings.Contains(t, "def __exit__") {
+							mentions = true
+						}
+						for _, line := range strings.Split(t, "\n") {
+							if regexp.MustCompile(`^\s*return\s+(True|1|not\s+False)\b`).MatchString(line) {
+								returnsTrue = bl.Pos()
+							}
+						}
+					}
+				}
+				return true
+			})
+			if mentions {
+				m++
+				c.Check(returnsTrue == token.NoPos, ruleS, fmt.Sprintf("%s/__exit__ (by constants)", fd.Name.Name), fd.Pos(), "the function that prints __exit__ prints no `return True`",
+					"the function that prints __exit__ also prints `return True`: an exception that ends the `with` block may be suppressed")
 			}
 		}
 	}
@@ -9278,4 +9330,23 @@ func ruleUnionIndexUnsignedOnTheWire(c *core.Ctx) {
 	if n == 0 {
 		c.Undecided(rule, "anchor/WriteUnion", 0, "the emitted WriteUnion / ReadUnion were not found in cpp/binary")
 	}
+}
+
+// containsContinue: a `continue` that belongs to the enclosing loop (not to a loop nested in n).
+func containsContinue(n ast.Node) bool {
+	found := false
+	ast.Inspect(n, func(m ast.Node) bool {
+		switch x := m.(type) {
+		case *ast.ForStmt, *ast.RangeStmt, *ast.FuncLit:
+			if m != n {
+				return false
+			}
+		case *ast.BranchStmt:
+			if x.Tok == token.CONTINUE {
+				found = true
+			}
+		}
+		return !found
+	})
+	return found
 }
